@@ -3,6 +3,8 @@ import OrsoVerif.Lemmas.GroupBy
 import OrsoVerif.Generated.GroupBy
 import OrsoVerif.Model.GroupByCode
 import OrsoVerif.Lemmas.GroupByCode
+import OrsoVerif.Model.GroupByX
+import OrsoVerif.Lemmas.GroupByX
 /-!
 # C12 — GroupBy aggregates equal a reference partition-and-fold
 
@@ -213,6 +215,17 @@ theorem sequence_spec (keyOf : ρ → κ) (cell : ρ → String → Option Int) 
   | aggregate reqs => rfl
   | groups => exact congrArg Out.keys (groups_spec keyOf rows)
 
+/-- **Use, mutate, use again.**  A `GroupBy` object holds a reference to its frame, and
+`_group_keys` is never reset.  For every history of calls on one object (`aggregate` with any request
+lists, the wrappers, `groups()`) with rows appended to the frame in between (`DataFrame.append`),
+every call returns what it returns alone on a fresh object of the frame as it is at the time of the
+call: the keys registered when the frame was shorter are a prefix of the keys of the longer frame,
+in the same order, so nothing stale survives. -/
+theorem sequence_with_appends (keyOf : ρ → κ) (cell : ρ → String → Option Int) (rows : List ρ)
+    (ops : List (OpA ρ)) :
+    runSA keyOf cell rows [] ops = aloneA keyOf cell rows ops :=
+  runSA_eq_aloneA keyOf cell ops [] rows
+
 /-- **Layout of a result row**: when the labels and the key column names are pairwise distinct, the
 header is the `FUNC(column)` labels in request order followed by the key columns, and every row is
 the aggregates followed by the key values. -/
@@ -388,12 +401,13 @@ theorem min_of_partial_order_is_minimal (hirr : ∀ a, lt a a = false)
     exact ⟨h1, h3⟩
 
 /-- **What MIN / MAX demand of the values, 2.**  When the comparison is moreover total on the values
-(numbers without NaN, texts, booleans, Decimals — not NaN, not values of different kinds) that member
-is unique and the result does not depend on the order of the rows.  Totality is needed: the example
-below is a float column with a NaN. -/
+of the group (numbers without NaN, texts, booleans, Decimals — not NaN, not values of different
+kinds; only the values that occur need to be comparable) that member is unique and the result does
+not depend on the order of the rows.  Totality is needed: the example below is a float column with
+a NaN. -/
 theorem min_of_total_order_ignores_row_order (hirr : ∀ a, lt a a = false)
-    (htr : ∀ a b c, lt a b = true → lt b c = true → lt a c = true)
-    (htot : ∀ a b, a ≠ b → lt a b = true ∨ lt b a = true) {vs ws : List α} (hp : vs.Perm ws) :
+    (htr : ∀ a b c, lt a b = true → lt b c = true → lt a c = true) {vs ws : List α}
+    (htot : ∀ a ∈ vs, ∀ b ∈ vs, a ≠ b → lt a b = true ∨ lt b a = true) (hp : vs.Perm ws) :
     leastBy lt vs = leastBy lt ws := by
   cases hv : leastBy lt vs with
   | none =>
@@ -412,7 +426,7 @@ theorem min_of_total_order_ignores_row_order (hirr : ∀ a, lt a a = false)
       congr 1
       apply Classical.byContradiction
       intro hne
-      rcases htot m m' hne with h | h
+      rcases htot m h1 m' (hp.mem_iff.mpr h1') hne with h | h
       · rw [h2' m (hp.mem_iff.mp h1)] at h; exact absurd h (by simp)
       · rw [h2 m' (hp.mem_iff.mpr h1')] at h; exact absurd h (by simp)
 end
@@ -425,6 +439,205 @@ what orso does with them (`outside-domain:…` in the evidence). -/
 example :
     let lt : Option Nat → Option Nat → Bool := fun a b => match a, b with | some x, some y => x < y | _, _ => false
     leastBy lt [none, some 1] = some none ∧ leastBy lt [some 1, none] = some (some 1) := by decide
+
+/-! ## Float value columns: the infinities, NaN, the negative zero
+
+The statement folds "that group's non-null values".  A NaN is a value, not a null: `COUNT` counts it,
+`SUM` and `AVG` of a group that holds one are NaN (`Model/GroupByX.lean`).  The theorems of this
+section are the property on frames whose value cells are floats `XVal` = a finite number | `inf` |
+`-inf` | `nan` (the negative zero is the number zero). -/
+section Floats
+
+/-- **The single pass is partition-and-fold on float columns too**: for every frame whose value
+cells are floats (NaN and the infinities among them) and every non-empty request list, `aggregate`
+yields one entry per distinct key in first-occurrence order, each request folded over *all* the
+non-null values of that key's rows — a NaN is one of them. -/
+theorem float_aggregate_spec (keyOf : ρ → κ) (cell : ρ → String → Option XVal) (rows : List ρ)
+    (reqs : List Req) (h : reqs ≠ []) :
+    aggregateX keyOf cell rows reqs = referenceX keyOf cell rows reqs := by
+  unfold aggregateX referenceX
+  have hcols : firstSeen (reqs.map (·.2)) ≠ [] := firstSeen_ne_nil (by simpa using h)
+  simp only
+  rw [firstSeen_emit_keys keyOf cell hcols rows]
+  apply List.map_congr_left
+  intro k _
+  congr 1
+  apply List.map_congr_left
+  intro q hq
+  rw [collected_emit keyOf cell (nodup_firstSeen _) rows k q.2]
+  rw [if_pos (mem_firstSeen.mpr (List.mem_map.mpr ⟨q, hq, rfl⟩))]
+
+/-- **The folds on floats are the usual aggregates.**  Over the list `vs` of a group's non-null float
+values: COUNT is the length (a NaN counts); SUM is `sumOfFloats` — NaN as soon as a NaN or both
+infinities are among the values, otherwise the infinity among them, otherwise the exact sum — and AVG
+is that sum over the length (NaN / ±inf when the sum is); on no values COUNT is 0 and the others
+null; when no NaN is among the values MIN / MAX are the member with no member below / above it. -/
+theorem float_fold_spec (vs : List XVal) :
+    xfold .count vs = .val (.fin vs.length)
+    ∧ xfold .sum vs = (if vs = [] then .null else .val (sumOfFloats vs))
+    ∧ xfold .avg vs = (if vs = [] then .null else
+        match sumOfFloats vs with | .fin s => .ratio s vs.length | x => .val x)
+    ∧ (XVal.nan ∉ vs → ∀ m, xfold .min vs = .val m ↔ m ∈ vs ∧ ∀ x ∈ vs, x.lt m = false)
+    ∧ (XVal.nan ∉ vs → ∀ m, xfold .max vs = .val m ↔ m ∈ vs ∧ ∀ x ∈ vs, m.lt x = false)
+    ∧ (xfold .min vs = .null ↔ vs = []) ∧ (xfold .max vs = .null ↔ vs = []) := by
+  have htot : XVal.nan ∉ vs → ∀ a ∈ vs, ∀ b ∈ vs, a ≠ b → a.lt b = true ∨ b.lt a = true :=
+    fun hn a ha b hb hab => XVal.lt_total (fun e => hn (e ▸ ha)) (fun e => hn (e ▸ hb)) hab
+  refine ⟨rfl, ?_, ?_, ?_, ?_, ?_, ?_⟩
+  · cases vs with
+    | nil => rfl
+    | cons v vs => simp [xfold, xtotal_eq]
+  · cases vs with
+    | nil => rfl
+    | cons v vs =>
+      simp only [xfold, xtotal_eq]
+      rw [if_neg (by simp)]
+      cases sumOfFloats (v :: vs) <;> rfl
+  · intro hn m
+    rw [← leastBy_eq_some_iff XVal.lt XVal.lt_irrefl XVal.lt_trans vs (htot hn) m, ← xleast_eq_leastBy]
+    cases h : xleast vs <;> simp [xfold, h]
+  · intro hn m
+    rw [← leastBy_eq_some_iff (fun a b => XVal.lt b a) XVal.lt_irrefl
+      (fun a b c hab hbc => XVal.lt_trans c b a hbc hab) vs
+      (fun a ha b hb hab => (htot hn a ha b hb hab).symm) m, ← xgreatest_eq_leastBy]
+    cases h : xgreatest vs <;> simp [xfold, h]
+  · cases vs <;> simp [xfold, xleast]
+  · cases vs <;> simp [xfold, xgreatest]
+
+/-- **Row order and float values.**  COUNT, SUM and AVG of any float values — NaN and the infinities
+included — do not depend on their order; MIN and MAX do not as long as no NaN is among them (with a
+NaN they do: the example after `min_of_total_order_ignores_row_order`). -/
+theorem float_fold_ignores_row_order (f : Func) {vs ws : List XVal} (hp : vs.Perm ws)
+    (hn : (f = .min ∨ f = .max) → XVal.nan ∉ vs) : xfold f vs = xfold f ws := by
+  have hnil : vs = [] ↔ ws = [] := by
+    constructor
+    · rintro rfl; exact List.nil_perm.mp hp
+    · rintro rfl; exact List.perm_nil.mp hp
+  have htot : XVal.nan ∉ vs → ∀ a ∈ vs, ∀ b ∈ vs, a ≠ b → a.lt b = true ∨ b.lt a = true :=
+    fun hn a ha b hb hab => XVal.lt_total (fun e => hn (e ▸ ha)) (fun e => hn (e ▸ hb)) hab
+  cases f with
+  | count => simp [xfold, hp.length_eq]
+  | min =>
+    have := min_of_total_order_ignores_row_order XVal.lt XVal.lt_irrefl XVal.lt_trans
+      (htot (hn (Or.inl rfl))) hp
+    simp only [xfold, xleast_eq_leastBy, this]
+  | max =>
+    have := min_of_total_order_ignores_row_order (fun a b => XVal.lt b a) XVal.lt_irrefl
+      (fun a b c hab hbc => XVal.lt_trans c b a hbc hab)
+      (fun a ha b hb hab => (htot (hn (Or.inr rfl)) a ha b hb hab).symm) hp
+    simp only [xfold, xgreatest_eq_leastBy, this]
+  | sum =>
+    cases vs with
+    | nil => rw [hnil.mp rfl]
+    | cons v vs =>
+      cases ws with
+      | nil => exact absurd (hnil.mpr rfl) (by simp)
+      | cons w ws => simp only [xfold, xtotal_perm hp]
+  | avg =>
+    cases vs with
+    | nil => rw [hnil.mp rfl]
+    | cons v vs =>
+      cases ws with
+      | nil => exact absurd (hnil.mpr rfl) (by simp)
+      | cons w ws => simp only [xfold, xtotal_perm hp, hp.length_eq]
+
+/-- **Row order, frames with float columns**: permuting the rows permutes the output entries and
+changes no key and no value — for COUNT, SUM, AVG and COUNT(\*) whatever the floats, for MIN / MAX of
+the columns that hold no NaN. -/
+theorem float_perm_invariant (keyOf : ρ → κ) (cell : ρ → String → Option XVal) (rows rows' : List ρ)
+    (reqs : List Req) (h : reqs ≠ []) (hp : rows.Perm rows')
+    (hn : ∀ q ∈ reqs, (q.1 = .min ∨ q.1 = .max) → ∀ r ∈ rows, cell r q.2 ≠ some .nan) :
+    (aggregateX keyOf cell rows reqs).Perm (aggregateX keyOf cell rows' reqs) := by
+  rw [float_aggregate_spec keyOf cell rows reqs h, float_aggregate_spec keyOf cell rows' reqs h]
+  unfold referenceX
+  have hf : ∀ k, (k, reqs.map fun q => xfold q.1 (nonNull cell (members keyOf rows k) q.2))
+      = (k, reqs.map fun q => xfold q.1 (nonNull cell (members keyOf rows' k) q.2)) := by
+    intro k
+    congr 1
+    apply List.map_congr_left
+    intro q hq
+    apply float_fold_ignores_row_order
+    · unfold nonNull members
+      exact (hp.filter _).filterMap _
+    · intro hmm hmem
+      unfold nonNull at hmem
+      obtain ⟨r, hr, hc⟩ := List.mem_filterMap.mp hmem
+      exact hn q hq hmm r (List.mem_filter.mp hr).1 hc
+  rw [List.map_congr_left (fun k _ => hf k)]
+  exact (firstSeen_perm (hp.map keyOf)).map _
+
+/-- **On finite columns the float model is the integer model**: a frame whose value cells are all
+finite gives, through `aggregateX`, exactly the entries of `aggregate` — so every theorem above about
+`aggregate` speaks about float columns without NaN and infinities as well. -/
+theorem float_finite_is_integer_model (keyOf : ρ → κ) (cell : ρ → String → Option Int) (rows : List ρ)
+    (reqs : List Req) (h : reqs ≠ []) :
+    aggregateX keyOf (fun r c => (cell r c).map .fin) rows reqs
+      = (aggregate keyOf cell rows reqs).map fun ka => (ka.1, ka.2.map XAgg.ofAgg) := by
+  rw [float_aggregate_spec _ _ _ _ h, aggregate_spec _ _ _ _ h]
+  unfold referenceX reference
+  rw [List.map_map]
+  apply List.map_congr_left
+  intro k _
+  simp only [Function.comp, List.map_map]
+  congr 1
+  apply List.map_congr_left
+  intro q _
+  rw [nonNull_map_fin, xfold_map_fin]
+  rfl
+
+/-- **A NaN is a value, not a null.**  `COUNT(c)` of a group is the number of its rows whose cell `c`
+is not null — the rows holding a NaN (or an infinity, or a zero) are among them — and `SUM(c)` and
+`AVG(c)` of a group one of whose rows holds a NaN are NaN. -/
+theorem float_nan_is_a_value (keyOf : ρ → κ) (cell : ρ → String → Option XVal) (rows : List ρ) (c : String) :
+    aggregateX keyOf cell rows [(.count, c)] =
+      (groupKeys keyOf rows).map (fun k =>
+        (k, [XAgg.val (.fin ((members keyOf rows k).filter fun r => (cell r c).isSome).length)]))
+    ∧ ∀ r ∈ rows, cell r c = some .nan →
+        (aggregateX keyOf cell rows [(.sum, c), (.avg, c)]).lookup (keyOf r) = some [.val .nan, .val .nan] := by
+  constructor
+  · rw [float_aggregate_spec keyOf cell rows _ (by simp)]
+    unfold referenceX
+    apply List.map_congr_left
+    intro k _
+    have : (nonNull cell (members keyOf rows k) c).length
+        = ((members keyOf rows k).filter fun r => (cell r c).isSome).length := by
+      unfold nonNull
+      generalize members keyOf rows k = ms
+      induction ms with
+      | nil => rfl
+      | cons r rs ih =>
+        rw [List.filterMap_cons, List.filter_cons]
+        cases hc : cell r c <;> simp [ih]
+    simp [xfold, this]
+  · intro r hr hc
+    rw [float_aggregate_spec keyOf cell rows _ (by simp)]
+    unfold referenceX
+    rw [lookup_map_self _ _ (mem_groupKeys.mpr ⟨r, hr, rfl⟩)]
+    have hmem : XVal.nan ∈ nonNull cell (members keyOf rows (keyOf r)) c := by
+      unfold nonNull members
+      exact List.mem_filterMap.mpr ⟨r, List.mem_filter.mpr ⟨hr, by simp⟩, hc⟩
+    have hne : nonNull cell (members keyOf rows (keyOf r)) c ≠ [] := List.ne_nil_of_mem hmem
+    have hs : sumOfFloats (nonNull cell (members keyOf rows (keyOf r)) c) = .nan := by
+      unfold sumOfFloats
+      rw [if_pos (Or.inl hmem)]
+    obtain ⟨_, h2, h3, _⟩ := float_fold_spec (nonNull cell (members keyOf rows (keyOf r)) c)
+    simp only [List.map_cons, List.map_nil, h2, h3, if_neg hne, hs]
+
+/-- Non-vacuity: a float column with a NaN, both infinities and nulls; the NaN is counted, the sums
+with a NaN or with both infinities are NaN, the all-null group keeps its row. -/
+example :
+    let rows : List (Int × Option XVal) :=
+      [(-1, some (.fin 3)), (-2, some .nan), (-1, none), (-1, some .nan), (-2, some (.fin 1)),
+       (7, none), (5, some .pinf), (5, some .ninf), (6, some .pinf), (6, some (.fin 2))]
+    let reqs : List Req := [(.count, "v"), (.sum, "v"), (.avg, "v"), (.count, "*")]
+    let cell := fun (r : Int × Option XVal) (c : String) => if c = "v" then r.2 else some (.fin 1)
+    aggregateX (·.1) cell rows reqs =
+      [(-1, [.val (.fin 2), .val .nan, .val .nan, .val (.fin 3)]),
+       (-2, [.val (.fin 2), .val .nan, .val .nan, .val (.fin 2)]),
+       (7, [.val (.fin 0), .null, .null, .val (.fin 1)]),
+       (5, [.val (.fin 2), .val .nan, .val .nan, .val (.fin 2)]),
+       (6, [.val (.fin 2), .val .pinf, .val .pinf, .val (.fin 2)])] := by decide
+
+end Floats
 
 /-! ## The source, statement by statement
 
@@ -466,6 +679,22 @@ theorem source_registers_before_null_test :
     bodyOk source.body = true ∧ yieldOk source.yieldGuards = true ∧ source.registers = true := by
   decide
 
+/-- **The collection loop appends every float value, NaN included** (group_by.py:128-132).  On the
+values of a float column the tests of the loop can tell more kinds apart (`value != value` is true
+of a NaN only): for every float value — zero, a finite number, an infinity, NaN — the body of the
+loop in the working tree appends the value exactly once and `_map` yields its triple; on a null it
+registers the group and appends nothing.  A NaN is a non-null value (`float_nan_is_a_value`); a loop
+that treats it as a null (`if value is None or value != value: continue`) fails this theorem while
+it passes `source_registers_before_null_test`, which only speaks about integers. -/
+theorem source_appends_every_float_value :
+    (∀ v : XVal, ((effectX source.body (some v)).filter isAppend).length = 1
+      ∧ guardsHoldX source.yieldGuards (some v) = true)
+    ∧ effectX source.body none ≠ [] ∧ ∀ a ∈ effectX source.body none, a = Action.touch := by
+  have hb : bodyOkX source.body = true := by decide
+  have hy : yieldOkX source.yieldGuards = true := by decide
+  obtain ⟨⟨h1, h2⟩, h3⟩ := bodyOkX_sound hb
+  exact ⟨fun v => ⟨h3 v, yieldOkX_sound hy (some v)⟩, h1, h2⟩
+
 /-- **A group is identified by its key values** (`group_key = …` in `_map`, group_by.py:92):
 whatever the hash function, the identity `_map` computes is injective in the key.  (Repair C12-F01;
 false for `hash(tuple(…))`, `hash_identity_merges`.) -/
@@ -488,6 +717,12 @@ with the columns and no rows, instead of handing an empty list of dictionaries t
 theorem source_empty_frame_header :
     source.aggEmptyHeader = true ∧ source.groupsEmptyHeader = true := by
   decide
+
+/-- **A result row holds the aggregates themselves** (`results = {label: values.get(label) …}`,
+group_by.py:143): the cell written under a label is the value the aggregator returned — a COUNT of 0,
+a SUM or AVG of 0 stay the number zero (with `values.get(label) or None` they would turn into null,
+`falsy_cell_loses_zero`). -/
+theorem source_result_cells : source.cell = .get := by decide
 
 /-- **The convenience wrappers ask for their own function**: `max` → `MAX`, `min` → `MIN`,
 `sum` → `SUM`, `avg` → `AVG` over the columns given, `count` → `COUNT(*)`. -/
@@ -596,7 +831,7 @@ theorem source_calls_spec (fr : Frame) (lazy : Bool) (objs : List (List String))
   cases op with
   | aggregate reqs =>
     simp only [stepS]
-    rw [render_aggregate source_empty_frame_header.1]
+    rw [render_aggregate source_empty_frame_header.1 source_result_cells]
     simp only [run, hi, toExcept]
   | groups =>
     have hg := sequence_spec (keyAt (idxs.getD g [])) (cellOf fr.columns) fr.rows .groups
@@ -687,6 +922,27 @@ example :
         { columns := ["k", "j"], rows := [[.int 1, .str "a"]] }
         false [["k"], ["j"]] [[0], [1]] [(0, .groups), (1, .groups)]
       = [.ok (["k"], [[.int 1]]), .ok (["j"], [[.int 1], [.str "a"]])] := by
+  decide
+
+/-- `results = {label: values.get(label) or None …}`: a group whose values are all null has COUNT
+null instead of 0, and a sum that is zero turns into null (`falsy_cell_loses_zero`). -/
+example :
+    runCallsF { repaired with cell := .getOrNone }
+        { columns := ["k", "v"], rows := [[.str "a", .none], [.str "b", .int 0], [.str "c", .int 2]] }
+        false [["k"]] [[0]] [(0, .aggregate [(.count, "v"), (.sum, "v")])]
+      = [.ok (["COUNT(v)", "SUM(v)", "k"],
+             [[.none, .none, .str "a"], [.int 1, .none, .str "b"], [.int 1, .int 2, .str "c"]])] := by
+  decide
+
+/-- NaN treated as a null in the collection loop (`if value is not None and value == value:`, or a
+helper `is_null(value) = value is None or value != value`): on integers nothing changes (`bodyOk`
+holds), on a float column the NaN is never appended — `bodyOkX` is false, so
+`source_appends_every_float_value` fails for it. -/
+example :
+    bodyOk [([], .touch), ([.notNone, .notNaN], .append)] = true
+    ∧ bodyOkX [([], .touch), ([.notNone, .notNaN], .append)] = false
+    ∧ effectX [([], .touch), ([.notNone, .notNaN], .append)] (some .nan) = [.touch]
+    ∧ bodyOkX repaired.body = true := by
   decide
 
 /-- The repaired program passes every condition (the conditions are satisfiable). -/
